@@ -533,9 +533,13 @@ type vc05CountingRW struct {
 
 func (w *vc05CountingRW) WriteMsg(ctx context.Context, req, resp *dns.Msg) (err error) {
 	w.n++
-	w.last = resp
+	// Keep a copy and then edit the written message in place as the UDP server
+	// does with a response that does not fit (vdns.ServerEdits): whatever the
+	// stack keeps of the object it wrote must not depend on it.
+	w.last = resp.Copy()
+	vdns.ServerEdits(resp)
 
-	return w.ResponseWriter.WriteMsg(ctx, req, resp)
+	return w.ResponseWriter.WriteMsg(ctx, req, w.last)
 }
 
 // vc05Exchange serves one request.  writes is the number of responses the
